@@ -50,14 +50,25 @@ def run(ctx):
     if hooks < nscen:
         raise Inconclusive("hook rogger.flush.between fired %d times in %d scenarios (hook self-test)" % (hooks, nscen))
     traces = split(out)
-    cfg = open(os.path.join(VERIF, "spec", SPEC, "Trace.cfg")).read()
-    # shard the traces over several TLC processes
+    cfg_t = open(os.path.join(VERIF, "spec", SPEC, "Trace.cfg")).read()
+    cfg = cfg_t.replace("@K@", "10000")
+    # shard the traces over several TLC processes, in groups of equal queue capacity (a constant of the specification)
     from concurrent.futures import ThreadPoolExecutor
-    k = 8
-    parts = [traces[i::k] for i in range(k)]
+    bycap = {}
+    for t in traces:
+        if not t or t[0]["e"] != "Config":
+            raise Inconclusive("trace without its Config event")
+        bycap.setdefault(t[0]["k"], []).append(t)
+    parts, cfgs = [], []
+    for cap, ts in sorted(bycap.items()):
+        k = 6 if len(ts) > 60 else 2
+        for i in range(k):
+            if ts[i::k]:
+                parts.append(ts[i::k])
+                cfgs.append(cfg_t.replace("@K@", str(cap)))
     states = trans = 0
-    with ThreadPoolExecutor(max_workers=k) as ex:
-        results = list(ex.map(lambda ip: tracecheck.validate(ctx, SPEC, "Trace_LogFlush", cfg, ip[1], name="trace-%d" % ip[0]),
+    with ThreadPoolExecutor(max_workers=8) as ex:
+        results = list(ex.map(lambda ip: tracecheck.validate(ctx, SPEC, "Trace_LogFlush", cfgs[ip[0]], ip[1], name="trace-%d" % ip[0]),
                               list(enumerate(parts))))
     for (acc, fails, st), part in zip(results, parts):
         states += st["states"]
@@ -71,7 +82,7 @@ def run(ctx):
                         "was not written when FlushLogger returned, or order/duplication)" % json.dumps(ev),
                         {"trace": t, "offset": f["offset"]})
     # binding self-test
-    base = next((t for t in traces if sum(1 for e in t if e["e"] == "Write") >= 2 and any(e["e"] == "FlushRet" for e in t)), None)
+    base = next((t for t in traces if t[0]["k"] == 10000 and sum(1 for e in t if e["e"] == "Write") >= 2 and any(e["e"] == "FlushRet" for e in t)), None)
     if base is None:
         raise Inconclusive("no trace with two writes for the self-test")
     selftest = {}
@@ -90,7 +101,13 @@ def run(ctx):
         "samples": [traces[0][:30]],
         "evaluations": len(traces), "distinct_nontrivial": len({json.dumps(t) for t in traces}),
         "rule": "scenarios: (a) flusher held between its selects, entries logged, flush requested before/after the release; "
-                "(b) 1-3 goroutines logging 1-6 entries concurrently with one flush; distinct = distinct event sequences",
+                "(b) 1-3 goroutines logging 1-6 entries concurrently with one flush; (c) queue capacity 2 (test export), flusher held, "
+                "1-2 goroutines log more than the queue holds (calls block), release, flush; (d) every 25th scenario: a child process "
+                "logs 5-40 entries to a slow file writer and panics under tars.CheckPanic -- the file must hold every entry, once, in "
+                "order, when the process is gone; half of all scenarios log through Infof (text path, with and without prefix), half "
+                "through WriteLog; distinct = distinct event sequences",
+        "scenarios_by_queue_capacity": {str(k): len(v) for k, v in bycap.items()},
+        "panic_exit_scenarios": sum(1 for t in traces if t[0].get("kind") == "panic-exit"),
         "model_checking": {"drain": {"distinct": r.distinct, "generated": r.generated},
                            "no_drain_violates_FlushComplete": True},
         "hook_fired": hooks, "scenarios_with_entries_left_in_queue": leftover, "traces_with_between_event": held,
